@@ -444,6 +444,8 @@ func cmdCheck(args []string) int {
 	}
 	var obs []*Obligation
 	var broken []string
+	type unboundT struct{ name, reason string }
+	var unbound []unboundT
 	type unitInfo struct {
 		ID, Range   string
 		Stmts, Obs  int
@@ -482,8 +484,8 @@ func cmdCheck(args []string) int {
 			}
 			activeProp = pass
 			res := VerifyUnit(prog, cs, u)
-			for _, e := range res.Errors {
-				broken = append(broken, e)
+			for ei, e := range res.Errors {
+				unbound = append(unbound, unboundT{fmt.Sprintf("%s/%s/bind:%d", prop, u.ID(), ei+1), e})
 			}
 			n := 0
 			for _, ob := range res.Obligations {
@@ -546,9 +548,8 @@ func cmdCheck(args []string) int {
 				missing = append(missing, w)
 			}
 		}
-		if len(missing) > 0 {
-			fmt.Fprintf(os.Stderr, "broken check: %d expected obligations were not generated (contract or function disappeared?): %s\n", len(missing), strings.Join(missing, ", "))
-			return 2
+		for _, m := range missing {
+			unbound = append(unbound, unboundT{m, "obligation that is discharged on the unchanged tree could not be generated from the current source (the function, loop or statement its contract is anchored in has changed or disappeared)"})
 		}
 	}
 	findings := loadFindings()
@@ -607,6 +608,23 @@ func cmdCheck(args []string) int {
 			suffix = " no-failing-input-found"
 		}
 		fmt.Printf("VIOLATION property=%s replay=%s obligation=%s status=%s%s\n", prop, path, r.Ob.Name, r.Res.Status, suffix)
+	}
+	// obligations that could not even be generated from the current source: the proof no longer goes through
+	for _, ub := range unbound {
+		if f := isKnown(ub.name); f != nil {
+			fmt.Printf("KNOWN-FINDING: property=%s %s %s\n", prop, ub.name, f.Text)
+			known = append(known, ub.name)
+			continue
+		}
+		claimed++
+		violations++
+		failedNames = append(failedNames, ub.name)
+		path := filepath.Join(outRoot(), "replay", prop, sanitize(strings.TrimPrefix(ub.name, prop+"/"))+".json")
+		rep := &Replay{Property: prop, Obligation: ub.name, Kind: "unbound", Clause: ub.reason, Status: "not-generated",
+			Note: "the contract could not be bound to /repo's current source, so the obligation is undischarged; no counterexample exists for an obligation that was not generated"}
+		data, _ := json.MarshalIndent(rep, "", " ")
+		os.WriteFile(path, data, 0o644)
+		fmt.Printf("VIOLATION property=%s replay=%s obligation=%s status=not-generated no-failing-input-found\n", prop, path, ub.name)
 	}
 	wall := time.Since(t0).Seconds()
 	var ass []string
